@@ -18,6 +18,10 @@ PROP = {
   'CLUSTER / CONFIG / COMMAND / UMSYNC are outside the handler model (exercised through the child process only; of '
   'UMCTL SETCLUSTER only RangeMap::from of a tagged range is modelled)',
   'buffers are shorter than isize::MAX / 32 bytes; commands have fewer than 2^64 - 3 arguments',
+  'the UMCTL parsers (SETCLUSTER, SETREPL, switch commands) are not re-modelled here (c17 / C05 own them): C16 pins their '
+  'memory reservations by extractor (only Vec::with_capacity(arr.len() - 2) and the RangeMap flags; anything sized by a '
+  'client-declared count is refused) and models the counted item loops and gen_node_id only; the parsers themselves are '
+  'run in-process on hostile arguments (no panic, requested bytes <= 64*argument bytes + 256 KiB) and through the child',
   'btoi 0.4.2 / atoi 1.0 / str::parse::<usize> / str::from_utf8 grammars as transliterated (btoi, parse::<usize> '
   'and from_utf8 are checked differentially; atoi::<usize> of UMCTL SLOWLOG GET is not)',
  ],
@@ -50,13 +54,17 @@ CHECK = {
          'requests at most 32*(M+1)*(n+1) bytes, takes at most 2*(M+1)*(n+1) steps and recurses at most M+1 deep; no '
          'decode call and no connection byte stream ends in a panic; no modelled handler (EVAL/EVALSHA numkeys, '
          'blocking arity/timeout/keys, UMFORWARD, MSET/MGET/DEL/EXISTS, SLOWLOG GET, slow-log record, command-name '
-         'scan, ClusterName, RangeMap of a tagged SETCLUSTER range) panics or leaves a request unanswered, and its '
+         'scan, ClusterName (ASCII-only, so gen_node_id never cuts inside a character), counted item loops of the UMCTL '
+         'parsers (nothing reserved by a declared count), RangeMap of a tagged SETCLUSTER range) panics or leaves a request unanswered, and its '
          'iterations are <= 6*argument bytes + 2*argc + 1 (<= 16384 per slot range). The seven defects this check '
          'found (F4 alloc abort, F5 EVAL spin, F16a blocking wedge, F16b stack overflow, F16c slow-log panic, F16d/F16e '
          'SETCLUSTER range panic / spin under the metadata lock) are fixed in /repo; their inputs are regression cases '
          'and their old behaviour stays proved about the old switch values. The model is tied to the code by '
          'source-derived switches/tables and by running every generated input through the real decoder (allocation '
-         'measured byte-exactly) and through the real binary (reply / close / pending / abort / stall, RSS, wall time).',
+         'measured byte-exactly) and through the real binary (reply / close / pending / abort / stall, RSS, wall time), '
+         'including a control-plane family: every UMCTL / CONFIG / CLUSTER / UMFORWARD / UMSYNC / COMMAND form with one field '
+         'at a time replaced by boundary numbers, names and addresses, each followed by CLUSTER NODES / SLOTS, UMCTL INFO / '
+         'GETEPOCH / INFOREPL / INFOMGR and data commands on the same and on a second connection.',
  'note': 'Trusted: Lean kernel; cost annotation of steps; child-process observer. Not covered: accept-loop fd '
          'exhaustion, gzip/zstd bombs, UMCTL admin commands as an attack surface (SHUTDOWN, CONFIG SET).',
 }
